@@ -92,6 +92,10 @@ def elem_to_value(ex, term, kind):
     if isinstance(kind, tuple) and kind[0] == 'tup':
         sort, mk, projs = tuple_parts(kind)
         return tuple(elem_to_value(ex, z3.simplify(p(term)), k) for p, k in zip(projs, kind[1]))
+    from .values import ext_kind
+
+    if ext_kind(kind) is not None:
+        return ext_kind(kind).to_value(ex, term, kind)
     return Sym(z3.simplify(term), kind)
 
 
